@@ -264,6 +264,12 @@ func TestVerifC04(t *testing.T) {
 						child(cp, "recover", m, opsPath)
 						os.Remove(filepath.Join(cp, "recover.state"))
 						child(cp, "recover2", 0, opsPath)
+						for try := 0; try < 2 && readLines(filepath.Join(cp, "recover2.state")) == nil; try++ {
+							if _, err := os.Stat(filepath.Join(cp, "recover2.err")); err == nil {
+								break
+							}
+							child(cp, "recover2", 0, opsPath) // the child did not run (fork/exec failure under load): again
+						}
 						r2 := rec
 						r2.RCut = m
 						r2.State = readLines(filepath.Join(cp, "recover2.state"))
@@ -279,6 +285,12 @@ func TestVerifC04(t *testing.T) {
 					}
 				}
 				child(base, "recover", 0, opsPath)
+				for try := 0; try < 2 && readLines(filepath.Join(base, "recover.state")) == nil; try++ {
+					if _, err := os.Stat(filepath.Join(base, "recover.err")); err == nil {
+						break
+					}
+					child(base, "recover", 0, opsPath)
+				}
 				rec.State = readLines(filepath.Join(base, "recover.state"))
 				if b, err := os.ReadFile(filepath.Join(base, "recover.err")); err == nil {
 					rec.Err = string(b)
